@@ -117,6 +117,18 @@ def adversarial(d, spec):
         return None
     mi, kind, new = d.choice(cands)
     m = s["modules"][mi]
+    if kind == "sig" and mi == s["top"] and d.bool(35):
+        # a spare pin: a top-level port nothing is connected to, named like a path name
+        wdt = 1
+        for inst in m["insts"]:
+            if new.startswith(inst["name"] + ":") and inst["of"][0] == "mod":
+                wdt = max([sg[1] for sg in s["modules"][inst["of"][1]]["sigs"] if sg[0] == new.split(":", 1)[1]] or [1])
+        m["sigs"].append([new, wdt, d.choice(["in", "out", "inout", "port"])])
+        for mm in s["modules"]:
+            if mm.get("style") == "class":
+                mm["style"] = "proc"
+        s["spare_port"] = True
+        return s
     from .c05 import rename
     if kind == "sig":
         olds = [sg[0] for sg in m["sigs"] if sg[2] == "sig"]
@@ -161,6 +173,8 @@ def shard(idx, n, tier):
                     return
                 case = adv
                 feats.append("adversarial_name")
+                if adv.get("spare_port"):
+                    feats.append("adversarial_spare_port")
             v = par.pristine(eval_case, case)
             if par.is_exc(v):
                 res.harness_error("%s %s %s" % (v[1], v[2], v[3][-600:]))
